@@ -235,7 +235,7 @@ class TermEval:
             if any(self._static_test(t, p) is (not c) for t, c in tests):
                 continue                      # statically infeasible choice
             q = p.fork()
-            q.conds += conds
+            q.conds += [(self._ctext(t, p), c) for t, c in tests]       # a named test is recorded as the test it names
             for t, c in tests:                  # `',' if xs else ''`: on the else side xs is empty
                 emp = self._emptiness(t, p)
                 if emp is not None and emp[1] is c:
